@@ -1128,11 +1128,14 @@ func (x *c08ORun) call(n int64) (granted bool, evals int64) {
 }
 
 // twoSided: a denial by the fallback is judged only for a real outage (server
-// closed, or accepting connections but never answering; whether error replies
-// count as "unreachable" is left open) and only
+// closed, accepting connections but never answering, or shut off from the
+// limiter by the open circuit breaker of its store; whether error replies count
+// as "unreachable" is left open) and only
 // when the caller clock moves in whole seconds (continuous and whole-second
 // refill coincide there).
-func (x *c08ORun) twoSided() bool { return x.whole && (x.fault == "close" || x.fault == "silent") }
+func (x *c08ORun) twoSided() bool {
+	return x.whole && (x.fault == "close" || x.fault == "silent" || x.fault == "breaker")
+}
 
 // rescue accounts one call answered by the fallback. false = violation recorded.
 func (x *c08ORun) rescue(n int64, granted bool, where string) bool {
@@ -1490,6 +1493,100 @@ func runC08Silent(m *vk.M, idx int) {
 		"slowest_call_ms": slowest.Milliseconds(), "trace (g/d redis, G/D fallback, | return)": c08Trunc(x.obs.String(), 120)})
 }
 
+// runC08BreakerOpen: the token limiter shares its *redis.Redis with a period
+// limiter. While the server answers every command with an error, only the period
+// limiter is used: its failures open the store's circuit breaker; the token
+// limiter notices nothing. Then the server is healthy again, but the breaker
+// still rejects most commands of the token limiter. Redis is unreachable for it
+// (through no fault of its own): answers without a script execution must follow
+// the in-process bucket (one bucket, one-sided bound; a one-token request one
+// refill period later must be granted), answers that did reach Redis must agree
+// with the reference bucket, which saw every executed script.
+func runC08BreakerOpen(m *vk.M, idx int) {
+	r := m.Rand("breaker", idx)
+	rate := int64(1 + r.Intn(5))
+	burst := (rate+1)/2 + int64(1+r.Intn(8))
+	sc := c08OScenario{Rate: rate, Burst: burst, Base: 1_600_000_000 + int64(r.Intn(100_000_000))}
+	failures := 40 + r.Intn(60)
+	x := &c08ORun{m: m, idx: idx, sc: sc, key: fmt.Sprintf("c08b%d", idx)}
+	x.desc = fmt.Sprintf("case=%d;{\"fault\":\"breaker of the shared store opened by %d failing PeriodLimit takes\",\"rate\":%d,\"burst\":%d}", idx, failures, rate, burst)
+	srv, err := newC08Srv("{" + x.key + "}")
+	if err != nil {
+		m.Inconclusive("miniredis: %v", err)
+		return
+	}
+	defer srv.mr.Close()
+	x.srv = srv
+	store := redis.New(srv.mr.Addr())
+	x.tl = NewTokenLimiter(int(rate), int(burst), store, x.key)
+	pl := NewPeriodLimit(60, 1000, store, "{"+x.key+"}:p:")
+	x.clock = time.Unix(sc.Base, 0)
+	x.ref = c08Bucket{rate: rate, burst: burst}
+	x.whole = true
+	x.fault = "none"
+	if !x.up([]c08Call{{N: 1}, {N: 1}}, "before-outage") {
+		return
+	}
+	srv.errMode.Store(true)
+	perr := 0
+	for i := 0; i < failures; i++ {
+		if _, err := pl.Take("x"); err != nil {
+			perr++
+		}
+	}
+	srv.errMode.Store(false)
+	m.Count("outage.fault.breaker", 1)
+	m.Count("outage.breaker.failing-period-takes", int64(perr))
+	x.fault = "breaker"
+	refill := ((burst + rate - 1) / rate) * 1000
+	calls := []c08Call{{N: 1}, {Adv: refill, N: 1}}
+	for i := 0; i < 30; i++ {
+		c := c08Call{N: 1}
+		switch r.Intn(6) {
+		case 0:
+			c.Adv = 1000
+		case 1:
+			c.N = c08PickN(r, burst)
+		}
+		calls = append(calls, c)
+	}
+	rejected := 0
+	for ci, c := range calls {
+		x.advance(c.Adv)
+		sec := x.clock.Unix()
+		class := c08Class(&x.ref, sec, c.N)
+		g, e := x.call(c.N)
+		switch {
+		case e < 0:
+			return
+		case e == 0:
+			rejected++
+			m.Count("outage.breaker.answered-without-script", 1)
+			if !x.rescue(c.N, g, fmt.Sprintf("call %d while the store's breaker is open", ci)) {
+				return
+			}
+		case e == 1:
+			x.seg.active = false
+			x.nredis++
+			m.Count("outage.breaker.answered-by-redis", 1)
+			x.ref.refill(sec)
+			avail := x.ref.tokens
+			if want := x.ref.take(sec, c.N); g != want {
+				m.Violate(fmt.Sprintf("C08:outage:breaker-open:want-%s-got-%s:%s", c08GD(want), c08GD(g), class), x.desc,
+					"call %d (rate %d, burst %d): AllowN(sec=%d, n=%d) = %v answered by Redis, reference bucket holds %d at that second, expected %v", ci, rate, burst, sec, c.N, g, avail, want)
+				return
+			}
+		default:
+			m.Count("outage.eval-duplicated", 1)
+			return
+		}
+	}
+	m.Case(vk.Digest("breaker", rate, burst, failures, rejected), rejected > 0)
+	if rejected == 0 {
+		m.Note("case %d: %d failing takes did not make the breaker reject any token-limiter command", idx, perr)
+	}
+}
+
 func TestVerifC08TokenOutage(t *testing.T) {
 	m := vk.New(t, "C08", "token limiter across Redis outages (miniredis Close/Restart, error replies): fallback answers consistent with some bucket of the same rate/burst per segment; EVAL seen again within 10 s; agreement with the reference bucket one refill period after the return")
 	defer m.Done()
@@ -1508,6 +1605,16 @@ func TestVerifC08TokenOutage(t *testing.T) {
 			}()
 		}
 	}
+	// open-breaker scenarios (fast)
+	wg.Add(1)
+	go func() {
+		defer wg.Done()
+		for k, nb := 0, vk.N(8, 120); k < nb; k++ {
+			if idx := 200000 + k; m.Only(idx) {
+				runC08BreakerOpen(m, idx)
+			}
+		}
+	}()
 	for w := 0; w < workers; w++ {
 		wg.Add(1)
 		go func() {
